@@ -608,6 +608,27 @@ def s1(ctx):
                   'state[%d]: written from %s, read back into %s' % (i, t, sorted(got)),
                   'state[%d] is written from %s but read into %s' % (i, t, sorted(got) or 'nothing'),
                   rf.loc)
+    # the reader takes every payload field from its position and from nowhere else: a second
+    # assignment from another source (a reset, a "normalisation") makes the loaded treespec differ
+    # from the one that was pickled - and from what the writer will accept next time
+    payload = {n_ for n_, _ in pyobject_fields(prog, NODE_REC)}
+    foreign = []
+    for n_ in rf.body.walk():
+        lhs = rhs = None
+        if n_.kind == 'BinaryOperator' and n_.op == '=':
+            lhs, rhs = n_.kids
+        elif n_.kind == 'CXXOperatorCallExpr' and n_.callee_name() == 'operator=' and len(n_.kids) == 3:
+            lhs, rhs = n_.kids[1], n_.kids[2]
+        if lhs is None or lhs.kind != 'MemberExpr' or lhs.name not in payload or not _base_is(lhs, 'Node'):
+            continue
+        if not _index_reads(rhs, tvar):
+            foreign.append(n_)
+    ctx.check('FromPickleable/payload-only-from-state', not foreign,
+              'FromPickleable assigns the payload fields (%s) only from their state positions'
+              % ', '.join(sorted(payload)),
+              'FromPickleable assigns `%s` from something other than the pickled state: the loaded '
+              'treespec is not the pickled one (a later round trip can then fail or differ)'
+              % (foreign[0].text(5)[:90] if foreign else ''), foreign[0].loc if foreign else rf.loc)
     # every position is written unconditionally: the only condition allowed around a value is
     # the null test of that very value (`x ? x : None`)
     for label, call in (('node', wc), ('state', wsc)):
